@@ -19,10 +19,7 @@ pub const T0: u64 = 1_700_000_000;
 pub const TTL: u32 = 300;
 
 fn sk(m: &KeyMat) -> Arc<Box<dyn SigningKey>> {
-    static CACHE: OnceLock<Mutex<HashMap<&'static str, Arc<Box<dyn SigningKey>>>>> = OnceLock::new();
-    let c = CACHE.get_or_init(|| Mutex::new(HashMap::new()));
-    let mut g = c.lock().unwrap();
-    g.entry(m.id).or_insert_with(|| Arc::new(m.signing_key())).clone()
+    m.shared()
 }
 
 pub fn make_sig(records: &[Record], key: &ZoneKey, spec: &SigSpec) -> Record {
@@ -62,7 +59,9 @@ pub struct WorldSpec {
 }
 
 pub fn rrset_kinds() -> Vec<&'static str> {
-    vec!["A1", "A2", "TXT", "MX", "NS", "CNAME", "WILDA"]
+    // A3: three records; APEX: an RRset at the zone apex (Labels = label count of the zone, 0 in
+    // the root zone)
+    vec!["A1", "A2", "A3", "TXT", "MX", "NS", "CNAME", "WILDA", "APEX"]
 }
 
 fn child(zone: &Name, label: &str) -> Name {
@@ -72,19 +71,21 @@ fn child(zone: &Name, label: &str) -> Name {
 pub fn layouts_for(alg: Algorithm) -> Vec<&'static str> {
     match alg {
         Algorithm::ED25519 => vec!["L1", "L2", "L3", "L4"],
-        Algorithm::ECDSAP256SHA256 => vec!["L1", "L2", "L3"],
+        Algorithm::ECDSAP256SHA256 | Algorithm::ECDSAP384SHA384 => vec!["L1", "L2", "L3"],
         _ => vec!["L1", "L2"],
     }
 }
 
 pub fn algs() -> Vec<Algorithm> {
-    vec![Algorithm::ED25519, Algorithm::ECDSAP256SHA256, Algorithm::RSASHA256]
+    vec![Algorithm::ED25519, Algorithm::ECDSAP256SHA256, Algorithm::RSASHA256, Algorithm::ECDSAP384SHA384, Algorithm::RSASHA512]
 }
 
 fn alg_keys(alg: Algorithm) -> Vec<KeyMat> {
     match alg {
         Algorithm::ED25519 => keys::ED[1..4].to_vec(),
         Algorithm::ECDSAP256SHA256 => keys::P256.to_vec(),
+        Algorithm::ECDSAP384SHA384 => keys::P384.to_vec(),
+        Algorithm::RSASHA512 => keys::RSA512.to_vec(),
         _ => keys::RSA.to_vec(),
     }
 }
@@ -134,6 +135,14 @@ pub fn base(kind: &str, alg: Algorithm, layout: &str) -> Base {
             zl + 1,
             vec![],
         ),
+        "A3" => (
+            www.clone(),
+            RecordType::A,
+            (1..=3).map(|i| Record::from_rdata(www.clone(), TTL, RData::A(A::new(192, 0, 2, i)))).collect(),
+            zl + 1,
+            vec![],
+        ),
+        "APEX" => (zone.clone(), RecordType::TXT, vec![Record::from_rdata(zone.clone(), TTL, RData::TXT(TXT::new(vec!["apex".to_string()])))], zl, vec![]),
         "TXT" => (www.clone(), RecordType::TXT, vec![Record::from_rdata(www.clone(), TTL, RData::TXT(TXT::new(vec!["hello".to_string()])))], zl + 1, vec![]),
         "MX" => (www.clone(), RecordType::MX, vec![Record::from_rdata(www.clone(), TTL, RData::MX(MX::new(10, child(&zone, "mail"))))], zl + 1, vec![]),
         "NS" => (www.clone(), RecordType::NS, vec![Record::from_rdata(www.clone(), TTL, RData::NS(NS(child(&zone, "ns1"))))], zl + 1, vec![]),
@@ -436,8 +445,12 @@ pub fn field_replacements(b: &Base) -> Vec<Scenario> {
         if let Some(other) = b.keys.iter().find(|k| k.tag() != tag) {
             remade("key tag -> tag of another key of the set".into(), SigSpec { key_tag: Some(other.tag()), ..honest_spec.clone() }, &signer_key);
         }
-        let other_alg = if signer_key.mat.alg == Algorithm::ED25519 { Algorithm::ECDSAP256SHA256 } else { Algorithm::ED25519 };
-        remade(format!("algorithm field -> {other_alg:?}"), SigSpec { algorithm: Some(other_alg), ..honest_spec.clone() }, &signer_key);
+        // the Algorithm field set to every other supported algorithm (signature made with the real key)
+        for other_alg in algs() {
+            if other_alg != signer_key.mat.alg {
+                remade(format!("algorithm field -> {other_alg:?}"), SigSpec { algorithm: Some(other_alg), ..honest_spec.clone() }, &signer_key);
+            }
+        }
     }
     // signer names, signed by the zone's own key
     let mut signer_alts: Vec<(&str, Name)> = vec![("child", owner.clone()), ("sibling-zone", vsec::n("e.")), ("unrelated", vsec::n("nokeys."))];
@@ -469,6 +482,23 @@ pub fn field_replacements(b: &Base) -> Vec<Scenario> {
         s.dnskey_sigs = b.dk_signers.iter().map(|i| make_sig(&s.dnskeys, &keyset[*i], &SigSpec::window(w.0, w.1))).collect();
         s.ans_sigs = vec![make_sig(&b.records, &keyset[b.ans_signer], &honest_spec)];
         out.push(b.single("field", format!("signing key presented with {what}; DNSKEY set and RRSIG re-made"), now, &s));
+    }
+    // the key that signs the DNSKEY RRset (KSK) and a sibling key presented with other flags; DNSKEY
+    // RRset re-made with the re-flagged keys (tags follow the flags)
+    if b.keys.len() > 1 {
+        for (who, idx) in [("DNSKEY-signing key", b.dk_signers[0]), ("uninvolved sibling key", (0..b.keys.len()).find(|i| *i != b.ans_signer && !b.dk_signers.contains(i)).unwrap_or(usize::MAX))] {
+            if idx == usize::MAX {
+                continue;
+            }
+            for (what, flags) in [("REVOKE (0x0181)", F_REVOKED), ("REVOKE without SEP (0x0180)", 0x0180u16), ("no ZONE flag (0x0001)", F_NOZONE), ("no flags", 0)] {
+                let mut keyset = b.keys.clone();
+                keyset[idx].flags = flags;
+                let mut s = h.clone();
+                s.dnskeys = b.dnskey_records(&keyset);
+                s.dnskey_sigs = b.dk_signers.iter().map(|i| make_sig(&s.dnskeys, &keyset[*i], &SigSpec::window(w.0, w.1))).collect();
+                out.push(b.single("field", format!("{who} presented with {what}; DNSKEY RRset re-made and re-signed"), now, &s));
+            }
+        }
     }
     // attacker key injected into the DNSKEY set
     {
@@ -612,6 +642,95 @@ pub fn injections(b: &Base) -> Vec<Scenario> {
             s.inject = Some((pos, rec.clone()));
             out.push(b.single("inject", format!("one record injected at answer position {pos}: {what}"), now, &s));
         }
+    }
+    out
+}
+
+// ------------------------------------------------------------------------------------------
+// F2c: SEVERAL RRSIGs over the one RRset, every order
+
+fn flip_sig(sig: &Record) -> Record {
+    let s = rrsig_of(sig);
+    let mut bytes = s.sig().to_vec();
+    let last = bytes.len() - 1;
+    bytes[last] ^= 1;
+    let mut r = sig.clone();
+    r.data = RData::DNSSEC(DNSSECRData::RRSIG(RRSIG::from_sig(s.input().clone(), bytes)));
+    r
+}
+
+/// The RRSIG candidates: V valid, E expired (validly made), F not yet valid, T wrong key tag
+/// (validly made over it), X broken signature, L valid but only 50 s left, K valid by another key
+/// of the DNSKEY set (multi-key layouts), S made by the trusted sibling zone e.
+pub fn sig_candidates(b: &Base, now: u64) -> Vec<(char, Record)> {
+    let t = now as u32;
+    let w = wide(now);
+    let key = &b.keys[b.ans_signer];
+    let mk = |win: Win| make_sig(&b.records, key, &b.ans_spec(win));
+    let v = mk(w);
+    let mut out = vec![
+        ('V', v.clone()),
+        ('E', mk((t - 2000, t - 1000))),
+        ('F', mk((t + 1000, t + 2000))),
+        ('T', make_sig(&b.records, key, &SigSpec { key_tag: Some(key.tag().wrapping_add(1)), ..b.ans_spec(w) })),
+        ('X', flip_sig(&v)),
+        ('L', mk((t - 1000, t + 50))),
+        ('S', make_sig(&b.records, &b.sibling, &SigSpec { signer: Some(vsec::n("e.")), ..b.ans_spec(w) })),
+    ];
+    if let Some((_, k2)) = b.keys.iter().enumerate().find(|(i, k)| *i != b.ans_signer && k.flags & 0x0100 != 0) {
+        out.push(('K', make_sig(&b.records, k2, &b.ans_spec(w))));
+    }
+    out
+}
+
+pub fn multi_sigs(b: &Base, thorough: bool, triples: bool) -> Vec<Scenario> {
+    let now = T0;
+    let w = wide(now);
+    let h = b.honest(w, w);
+    let cands = sig_candidates(b, now);
+    let get = |c: char| cands.iter().find(|x| x.0 == c).map(|x| x.1.clone());
+    let mut seqs: Vec<String> = vec![];
+    // every ordered pair of distinct candidates
+    for (a, _) in &cands {
+        for (c, _) in &cands {
+            if a != c {
+                seqs.push(format!("{a}{c}"));
+            }
+        }
+    }
+    // every ordered triple over {V, E, T, X, L} (quick) / over all candidates (thorough)
+    let tri: Vec<char> = if !triples { vec![] } else if thorough { cands.iter().map(|x| x.0).collect() } else { vec!['V', 'E', 'T', 'X', 'L'] };
+    for a in &tri {
+        for c in &tri {
+            for d in &tri {
+                if a != c && c != d && a != d {
+                    seqs.push(format!("{a}{c}{d}"));
+                }
+            }
+        }
+    }
+    // a valid RRSIG behind k broken ones (the validator looks at a bounded number of RRSIGs)
+    for k in [7usize, 8, 9, 10] {
+        seqs.push(format!("{}V", "X".repeat(k)));
+        seqs.push(format!("{}L", "E".repeat(k)));
+    }
+    let mut out = vec![];
+    for seq in seqs {
+        let mut s = h.clone();
+        s.ans_sigs = seq.chars().filter_map(|c| get(c)).enumerate().map(|(i, mut r)| {
+            // repeated broken candidates must differ from one another (no exact duplicates)
+            if seq.len() > 3 && i + 1 < seq.len() {
+                let sg = rrsig_of(&r);
+                let mut bytes = sg.sig().to_vec();
+                bytes[0] ^= i as u8;
+                r.data = RData::DNSSEC(DNSSECRData::RRSIG(RRSIG::from_sig(sg.input().clone(), bytes)));
+            }
+            r
+        }).collect();
+        out.push(b.single("multisig", format!("RRSIGs served in this order: {seq} (V valid, E expired, F future, T wrong key tag, X broken, L 50 s left, K other key, S sibling zone)"), now, &s));
+        let mut s2 = s.clone();
+        s2.sigs_first = true;
+        out.push(b.single("multisig", format!("RRSIGs {seq}, served before the records"), now, &s2));
     }
     out
 }
